@@ -141,7 +141,8 @@ pub fn candles(rng: &mut Rng, len: usize, class: &str) -> Vec<Candle> {
 			2 => (rng.below(3) as f64) * 100.0,
 			_ => 1e6 * rng.unit() * rng.unit(),
 		};
-		out.push(Candle { open, high, low, close, volume });
+		type V = yata::core::ValueType;
+		out.push(Candle { open: open as V, high: high as V, low: low as V, close: close as V, volume: volume as V });
 	}
 	out
 }
